@@ -995,6 +995,12 @@ func (g *Gen) enterLoop(h *ssa.BasicBlock, li *loopInfo, st State, fwd []predEdg
 		g.havocVal(p)
 	}
 	// 3. assume the invariant for an arbitrary iteration
+	if g.headSt == nil {
+		g.headSt = map[*ssa.BasicBlock]State{}
+		g.headVars = map[*ssa.BasicBlock]map[string]T{}
+	}
+	g.headSt[h] = st.clone()
+	g.headVars[h] = g.localsAt(h, true, st)
 	if g.ct != nil {
 		vars := g.localsAt(h, true, st)
 		for _, c := range g.ct.LoopInv[li.ord] {
@@ -1031,7 +1037,26 @@ func (g *Gen) checkInvariant(h *ssa.BasicBlock, li *loopInfo, st State, from *ss
 			g.vals[p] = g.val(p.Edges[idx])
 		}
 	}
-	g.checkInvariantAt(h, li, st, g.edgeTerm(from, k), what)
+	if g.ct != nil && !g.dry {
+		g.curHead = h
+		vars := g.localsAt(h, true, st)
+		for i, c := range g.ct.StepLemma[li.ord] {
+			env := g.envAt(st, g.entryState(), g.pkg, vars)
+			env.inGoal = true
+			t := env.compileBool(c.Expr)
+			if g.invariantStale(env, c) {
+				continue
+			}
+			g.reportSpecErrors(env, c)
+			label := c.Label
+			if label == "" {
+				label = fmt.Sprint(i)
+			}
+			g.newObligation(fmt.Sprintf("loop%d.step-lemma", li.ord), label, fmt.Sprintf("step lemma [back edge from block %d]: %s", from.Index, c.Text), c.Where, app("=>", g.edgeTerm(from, k), t.S))
+		}
+		g.curHead = nil
+	}
+	g.checkInvariantAt(h, li, st, g.edgeTerm(from, k), fmt.Sprintf("%s [back edge from block %d, line %s]", what, from.Index, g.where(from.Instrs[len(from.Instrs)-1].Pos())))
 	for p, t := range saved {
 		g.vals[p] = t
 	}
@@ -1042,7 +1067,21 @@ func (g *Gen) checkInvariantAt(h *ssa.BasicBlock, li *loopInfo, st State, cond s
 		return
 	}
 	vars := g.localsAt(h, true, st)
+	for _, c := range g.ct.LoopInv[li.ord] {
+		if c.Free {
+			// definitional axioms hold in every state: available when the invariant is (re-)established
+			env := g.envAt(st, g.entryState(), g.pkg, vars)
+			t := env.compileBool(c.Expr)
+			if !g.reportSpecErrors(env, c) {
+				g.assume(app("=>", cond, t.S))
+			}
+		}
+	}
 	for i, c := range g.ct.LoopInv[li.ord] {
+		if c.Free {
+			g.assumed["definitional axiom assumed at loop "+fmt.Sprint(li.ord)+" of "+funcDisplayName(g.fn)+": "+c.Text] = true
+			continue
+		}
 		env := g.envAt(st, g.entryState(), g.pkg, vars)
 		env.inGoal = true
 		t := env.compileBool(c.Expr)
@@ -1054,7 +1093,7 @@ func (g *Gen) checkInvariantAt(h *ssa.BasicBlock, li *loopInfo, st State, cond s
 		if label == "" {
 			label = fmt.Sprint(i)
 		}
-		g.newObligation(fmt.Sprintf("loop%d.inv-%s", li.ord, what), label, "invariant "+what+": "+c.Text, c.Where, app("=>", cond, t.S))
+		g.newObligation(fmt.Sprintf("loop%d.inv-%s", li.ord, strings.SplitN(what, " ", 2)[0]), label, "invariant "+what+": "+c.Text, c.Where, app("=>", cond, t.S))
 	}
 }
 
